@@ -653,6 +653,9 @@ def opt_agg(variant, ops):
     return {"k": "agg", "ak": "adt", "adt": "std::option::Option", "variant": variant, "vi": 1 if variant == "Some" else 0, "ops": ops}
 
 
+DISPATCHERS = ("analyzer::optimizations::analyze_for_optimization", "analyzer::vulnerabilities::analyze_for_vulnerability", "analyzer::qa::analyze_for_qa")
+SECTION_DISPATCHERS = ("report::optimization_report::get_optimization_report_section", "report::vulnerability_report::get_vulnerability_report_section",
+                       "report::qa_report::get_qa_report_section")
 RETAIN = ("std::vec::Vec::<T, A>::retain", "std::collections::HashSet::<T, S, A>::retain", "std::collections::HashSet::<T, S>::retain",
           "std::collections::BTreeSet::<T, A>::retain")
 
@@ -1334,6 +1337,11 @@ def inline_unknown(data, bodies, known, log):
                     g = local_callee(fn, bodies)
                     if g is None or g["path"] not in unknown or g is b or len(t["args"]) != g["arg_count"]:
                         continue
+                    if b["path"] in DISPATCHERS and g["arg_count"] == 1 and g["locals"][1]["ty"] == "solang_parser::pt::SourceUnit" \
+                            and g["locals"][0]["ty"].startswith("std::collections::HashSet<solang_parser::pt::Loc"):
+                        continue  # a new detector (parsed file -> set of locations) called from a dispatcher: it is a detector of its own, not a helper
+                    if b["path"] in SECTION_DISPATCHERS and g["arg_count"] == 0 and g["locals"][0]["ty"] == "std::string::String":
+                        continue  # likewise the section text of a new pattern
                     if b["blocks"][bi].get("cleanup"):
                         continue
                     loc = b["blocks"][bi]["tloc"]
